@@ -777,6 +777,9 @@ func handle(f []string) string {
 	if strings.HasPrefix(op, "bind.") {
 		op = "bind"
 	}
+	if strings.HasPrefix(op, "seq.") {
+		op = "seq"
+	}
 	switch op {
 	case "ast":
 		if len(f) != 2 {
@@ -804,6 +807,65 @@ func handle(f []string) string {
 			return "TRANSFORMERR " + hx(tErr.Error())
 		}
 		return "OK " + hx(prototext.MarshalOptions{Multiline: false}.Format(res.QueryRequest))
+	case "seq":
+		// seq.<form> <cache-size> (<stmt-hex> <ast|!> <lit-hex|-> <params>)+ : a sequence of (near-duplicate) statements
+		// through ONE fresh preparedCache, as consecutive bydbQLService.Query calls would go through the shared one.
+		if len(f) < 6 || (len(f)-2)%4 != 0 {
+			return "bad-op"
+		}
+		size, sErr := strconv.Atoi(f[1])
+		if sErr != nil {
+			return "bad-op"
+		}
+		c := lgrpc.NewVerifC20Cache(size, 1<<16)
+		var model, oracle []string
+		for k := 0; k*4+2 < len(f); k++ {
+			g := f[k*4+2 : k*4+6]
+			stmt := unhexS(g[0])
+			params := parseParams(g[3])
+			n := strconv.Itoa(k + 1)
+			// what this very text means, without any cache
+			ownAst, ownPT := "!", "PARSEERR"
+			if g0, pErr := bydbql.ParseQuery(stmt); pErr == nil {
+				ownAst = dumpGrammar(g0)
+				if own, oErr := bydbql.Prepare(stmt); oErr == nil {
+					ownPT = dumpGrammar(bydbql.VerifC20Template(own))
+				}
+			}
+			if ownAst != g[1] {
+				return "ASTMISMATCH step " + n + " T=" + ownAst
+			}
+			rl, rb, bdump := "-", "-", "-"
+			if g[2] != "-" {
+				_, rl = oneShot(unhexS(g[2]), nil)
+			}
+			if ownAst != "!" {
+				bdump, rb = oneShot(stmt, params)
+			}
+			st, how, cErr := c.GetOrPrepare(stmt)
+			tag := "?"
+			if how != "" {
+				tag = how[:1]
+			}
+			if cErr != nil {
+				model = append(model, "PT"+n+"=PARSEERR O"+n+"=-")
+				oracle = append(oracle, fmt.Sprintf("HOW%s=e TD%s=%s RC%s=PREPAREERR RL%s=%s RB%s=%s B%s=%s", n, n, b01(ownPT == "PARSEERR"), n, n, rl, n, rb, n, bdump))
+				continue
+			}
+			pt := dumpGrammar(bydbql.VerifC20Template(st))
+			o, rc := "", "-"
+			bq, bErr := st.Bind(params)
+			if bErr != nil {
+				o = errKind(bErr)
+				rc = o
+			} else {
+				o = dumpOverlay(bq)
+				rc = reqSig(transformer.TransformBound(ctx, bq))
+			}
+			model = append(model, "PT"+n+"="+pt+" O"+n+"="+o)
+			oracle = append(oracle, fmt.Sprintf("HOW%s=%s TD%s=%s RC%s=%s RL%s=%s RB%s=%s B%s=%s", n, tag, n, b01(pt == ownPT), n, rc, n, rl, n, rb, n, bdump))
+		}
+		return strings.Join(model, " ") + " ## " + strings.Join(oracle, " ")
 	case "bind":
 		if len(f) != 7 {
 			return "bad-op"
